@@ -302,6 +302,14 @@ pub fn gi_opt_count() -> usize {
 /// authenticatorGetInfo response.
 /// words: [top presence bits (9 / 22)] [option presence bits (6 / 17)] [cert presence bits (6)] values...
 pub fn gen_getinfo(src: &mut Src, info: &mut RInfo) -> Value {
+    gen_getinfo_ex(src, info, false)
+}
+
+/// `encode_only`: the value is only ever encoded (C02/C03/C16/C17), so the `algorithms` member may
+/// carry any algorithm identifier an authenticator can put into the public `alg` field (decoding
+/// would filter unknown ones), and the model is occasionally replaced by the value that equals
+/// `get_info::Response::default()` (a value that `==`-based short cuts single out).
+pub fn gen_getinfo_ex(src: &mut Src, info: &mut RInfo, encode_only: bool) -> Value {
     let opt = getinfo_optional();
     let top: Vec<bool> = (0..opt.len()).map(|_| src.bool()).collect();
     let po: Vec<bool> = (0..gi_opt_count()).map(|_| src.bool()).collect();
@@ -328,12 +336,51 @@ pub fn gen_getinfo(src: &mut Src, info: &mut RInfo) -> Value {
                 Value::Array((0..n).map(|_| Value::Uint(lattice_uint(src, 255))).collect())
             }
             GiKind::Transports => list_of(src, &TRANSPORTS, 4),
-            GiKind::Algorithms => gen_algorithms(src),
+            GiKind::Algorithms => {
+                if encode_only && src.chance(1, 4) {
+                    info.l("algorithms:any-identifier");
+                    let n = src.range(0, 2);
+                    Value::Array(
+                        (0..n)
+                            .map(|_| {
+                                let alg = match src.below(6) {
+                                    0 => -7,
+                                    1 => -8,
+                                    2 => -257,
+                                    3 => 0,
+                                    4 => i32::MIN as i64,
+                                    _ => (src.word() as i32) as i64,
+                                };
+                                Value::Map(vec![ks("alg", Value::int(alg)), ks("type", Value::text("public-key"))])
+                            })
+                            .collect(),
+                    )
+                } else {
+                    gen_algorithms(src)
+                }
+            }
             GiKind::Bool => Value::Bool(src.bool()),
             GiKind::Certifications => gen_certs_map(src, info, &pc),
             GiKind::AttFormats => list_of(src, &ATT_FORMATS, 2),
         };
         m.push(kv(*key, v));
+    }
+    if encode_only && src.chance(1, 16) {
+        // exactly the value of `get_info::Response::default()`, or one step away from it
+        info.l("getinfo:default-value");
+        let mut d = vec![
+            kv(1, Value::Array(vec![])),
+            kv(3, Value::Bytes(vec![0; 16])),
+            kv(4, Value::Map(vec![ks("rk", Value::Bool(false)), ks("up", Value::Bool(true))])),
+        ];
+        match src.below(4) {
+            0 | 1 => {}
+            2 => d[1] = kv(3, Value::Bytes(vec![0, 0, 0, 0, 0, 0, 0, 0, 0, 0, 0, 0, 0, 0, 0, 1])),
+            _ => {
+                d.pop();
+            }
+        }
+        return Value::Map(d);
     }
     Value::Map(m)
 }
@@ -602,9 +649,75 @@ pub fn gen_lb_resp(src: &mut Src, info: &mut RInfo) -> Value {
     Value::Map(m)
 }
 
+/// leaf lengths tried, largest first, when looking for the longest value a member accepts
+pub const LEAF_CAPS: &[usize] = &[3008, 1024, 676, 256, 255, 128, 77, 64, 48, 32, 16];
+
+/// The response of this kind with every optional member present (deterministic contents).
+pub fn full_model(kind: Kind) -> Value {
+    let mut words: Vec<u32> = vec![u32::MAX; 40];
+    words.extend(std::iter::repeat(0x5555_5555).take(200));
+    let mut src = Src::new(&words);
+    let mut info = RInfo::default();
+    gen_response(kind, &mut src, &mut info)
+}
+
+/// Paths of the byte / text string leaves of a model.
+pub fn string_leaves(model: &Value) -> Vec<Vec<crate::mutate::Step>> {
+    crate::mutate::walk(model).into_iter().filter(|p| matches!(crate::mutate::get(model, p), Some(Value::Bytes(_)) | Some(Value::Text(_)))).collect()
+}
+
+/// Replace the leaf by a string of `len` bytes (same kind); false if the path is not a string.
+pub fn set_leaf_len(model: &mut Value, path: &[crate::mutate::Step], len: usize) -> bool {
+    match crate::mutate::get_mut(model, path) {
+        Some(Value::Bytes(b)) => {
+            *b = (0..len).map(|i| 0x30 + (i % 64) as u8).collect();
+            true
+        }
+        Some(Value::Text(t)) => {
+            *t = (0..len).map(|i| b'a' + (i % 26) as u8).collect();
+            true
+        }
+        _ => false,
+    }
+}
+
+/// Longest length the public API accepts for this leaf (found by trial through the builder), or
+/// None when the member only admits its listed spellings / a fixed length.
+pub fn max_leaf_len(kind: Kind, model: &Value, path: &[crate::mutate::Step]) -> Option<usize> {
+    let cur = match crate::mutate::get(model, path) {
+        Some(Value::Bytes(b)) => b.len(),
+        Some(Value::Text(t)) => t.len(),
+        _ => return None,
+    };
+    let mut m = model.clone();
+    // a member is freely sizeable only if a different length also builds
+    let probe = if cur == 0 { 1 } else { cur - 1 };
+    set_leaf_len(&mut m, path, probe);
+    if build(kind, &m).is_err() {
+        return None;
+    }
+    for cap in LEAF_CAPS {
+        set_leaf_len(&mut m, path, *cap);
+        if build(kind, &m).is_ok() {
+            // the true limit may lie between this candidate and the next larger one
+            let mut hi = *cap;
+            loop {
+                set_leaf_len(&mut m, path, hi + 1);
+                if hi < 4000 && build(kind, &m).is_ok() {
+                    hi += 1;
+                } else {
+                    break;
+                }
+            }
+            return Some(hi);
+        }
+    }
+    Some(cur)
+}
+
 pub fn gen_response(kind: Kind, src: &mut Src, info: &mut RInfo) -> Value {
     match kind {
-        Kind::GetInfo => gen_getinfo(src, info),
+        Kind::GetInfo => gen_getinfo_ex(src, info, true),
         Kind::MakeCredential => gen_mc_resp(src, info),
         Kind::GetAssertion | Kind::GetNextAssertion => gen_ga_resp(src, info),
         Kind::ClientPin => gen_cp_resp(src, info),
@@ -805,7 +918,7 @@ fn usize_of(v: &Value) -> BR<usize> {
 
 pub fn build_getinfo(v: &Value) -> BR<get_info::Response> {
     let versions = b_list::<_, 4>(v.geti(1).ok_or("model: versions missing")?, |x| version_of(text_of(x)?))?;
-    let aaguid = b_bytes::<16>(v.geti(3).ok_or("model: aaguid missing")?)?;
+    let aaguid = b_bytes(v.geti(3).ok_or("model: aaguid missing")?)?;
     let mut r = get_info::ResponseBuilder { versions, aaguid }.build();
     for (k, x) in v.as_map().ok_or("model: not a map")? {
         let k = k.as_int().ok_or("model: GetInfo key not an integer")?;
@@ -857,24 +970,24 @@ pub fn build_getinfo(v: &Value) -> BR<get_info::Response> {
 }
 
 pub fn build_user(v: &Value) -> BR<PublicKeyCredentialUserEntity> {
-    let mut u = PublicKeyCredentialUserEntity::from(b_bytes::<64>(v.gets("id").ok_or("model: user.id missing")?)?);
+    let mut u = PublicKeyCredentialUserEntity::from(b_bytes(v.gets("id").ok_or("model: user.id missing")?)?);
     if let Some(x) = v.gets("icon") {
-        u.icon = Some(b_string::<128>(x)?);
+        u.icon = Some(b_string(x)?);
     }
     if let Some(x) = v.gets("name") {
-        u.name = Some(b_string::<64>(x)?);
+        u.name = Some(b_string(x)?);
     }
     if let Some(x) = v.gets("displayName") {
-        u.display_name = Some(b_string::<64>(x)?);
+        u.display_name = Some(b_string(x)?);
     }
     Ok(u)
 }
 
 pub fn build_rp(v: &Value) -> BR<PublicKeyCredentialRpEntity> {
     Ok(PublicKeyCredentialRpEntity {
-        id: b_string::<256>(v.gets("id").ok_or("model: rp.id missing")?)?,
+        id: b_string(v.gets("id").ok_or("model: rp.id missing")?)?,
         name: match v.gets("name") {
-            Some(x) => Some(b_string::<64>(x)?),
+            Some(x) => Some(b_string(x)?),
             None => None,
         },
         icon: if v.get(&hidden("icon-set")).is_some() { Some(Icon) } else { None },
@@ -883,8 +996,8 @@ pub fn build_rp(v: &Value) -> BR<PublicKeyCredentialRpEntity> {
 
 pub fn build_descriptor(v: &Value) -> BR<PublicKeyCredentialDescriptor> {
     Ok(PublicKeyCredentialDescriptor {
-        id: b_bytes::<255>(v.gets("id").ok_or("model: descriptor.id missing")?)?,
-        key_type: b_string::<32>(v.gets("type").ok_or("model: descriptor.type missing")?)?,
+        id: b_bytes(v.gets("id").ok_or("model: descriptor.id missing")?)?,
+        key_type: b_string(v.gets("type").ok_or("model: descriptor.type missing")?)?,
     })
 }
 
@@ -894,10 +1007,10 @@ pub fn build_att_stmt(v: &Value) -> BR<ctap2::AttestationStatement> {
         return Ok(ctap2::AttestationStatement::None(ctap2::NoneAttestationStatement {}));
     }
     let alg = v.gets("alg").and_then(|x| x.as_int()).ok_or("model: attStmt.alg missing")?;
-    let sig = b_bytes::<77>(v.gets("sig").ok_or("model: attStmt.sig missing")?)?;
+    let sig = b_bytes(v.gets("sig").ok_or("model: attStmt.sig missing")?)?;
     let x5c = match v.gets("x5c") {
         None => None,
-        Some(x) => Some(b_list::<_, 1>(x, |e| b_bytes::<1024>(e))?),
+        Some(x) => Some(b_list::<_, 1>(x, |e| b_bytes(e))?),
     };
     Ok(ctap2::AttestationStatement::Packed(ctap2::PackedAttestationStatement {
         alg: i32::try_from(alg).map_err(|_| "model: alg out of i32")?,
@@ -909,7 +1022,7 @@ pub fn build_att_stmt(v: &Value) -> BR<ctap2::AttestationStatement> {
 pub fn build_mc_resp(v: &Value) -> BR<ctap2::make_credential::Response> {
     use ctap2::make_credential as mc;
     let fmt = att_format_of(text_of(v.geti(1).ok_or("model: fmt missing")?)?)?;
-    let auth_data = b_bytes::<676>(v.geti(2).ok_or("model: authData missing")?)?;
+    let auth_data = b_bytes(v.geti(2).ok_or("model: authData missing")?)?;
     let mut r = mc::ResponseBuilder { fmt, auth_data }.build();
     if let Some(x) = v.geti(3) {
         r.att_stmt = Some(build_att_stmt(x)?);
@@ -930,8 +1043,8 @@ pub fn build_ga_resp(v: &Value) -> BR<ctap2::get_assertion::Response> {
     use ctap2::get_assertion as ga;
     let mut r = ga::ResponseBuilder {
         credential: build_descriptor(v.geti(1).ok_or("model: credential missing")?)?,
-        auth_data: b_bytes::<676>(v.geti(2).ok_or("model: authData missing")?)?,
-        signature: b_bytes::<77>(v.geti(3).ok_or("model: signature missing")?)?,
+        auth_data: b_bytes(v.geti(2).ok_or("model: authData missing")?)?,
+        signature: b_bytes(v.geti(3).ok_or("model: signature missing")?)?,
     }
     .build();
     if let Some(x) = v.geti(4) {
@@ -968,11 +1081,11 @@ pub fn build_cose_public(v: &Value) -> BR<cosey::PublicKey> {
     let y = v.geti(-3);
     Ok(match (kty, alg, crv) {
         (2, -7, Some(1)) => cosey::PublicKey::P256Key(cosey::P256PublicKey {
-            x: b_bytes::<32>(x.ok_or("x")?)?,
-            y: b_bytes::<32>(y.ok_or("y")?)?,
+            x: b_bytes(x.ok_or("x")?)?,
+            y: b_bytes(y.ok_or("y")?)?,
         }),
         (2, -25, Some(1)) => cosey::PublicKey::EcdhEsHkdf256Key(build_cose_ecdh(v)?),
-        (1, -8, Some(6)) => cosey::PublicKey::Ed25519Key(cosey::Ed25519PublicKey { x: b_bytes::<32>(x.ok_or("x")?)? }),
+        (1, -8, Some(6)) => cosey::PublicKey::Ed25519Key(cosey::Ed25519PublicKey { x: b_bytes(x.ok_or("x")?)? }),
         (4, -9, None) => cosey::PublicKey::TotpKey(cosey::TotpPublicKey {}),
         _ => return Err("model: unknown COSE key kind".into()),
     })
@@ -980,8 +1093,8 @@ pub fn build_cose_public(v: &Value) -> BR<cosey::PublicKey> {
 
 pub fn build_cose_ecdh(v: &Value) -> BR<cosey::EcdhEsHkdf256PublicKey> {
     Ok(cosey::EcdhEsHkdf256PublicKey {
-        x: b_bytes::<32>(v.geti(-2).ok_or("model: x missing")?)?,
-        y: b_bytes::<32>(v.geti(-3).ok_or("model: y missing")?)?,
+        x: b_bytes(v.geti(-2).ok_or("model: x missing")?)?,
+        y: b_bytes(v.geti(-3).ok_or("model: y missing")?)?,
     })
 }
 
@@ -991,7 +1104,7 @@ pub fn build_cp_resp(v: &Value) -> BR<ctap2::client_pin::Response> {
         r.key_agreement = Some(build_cose_ecdh(x)?);
     }
     if let Some(x) = v.geti(2) {
-        r.pin_token = Some(b_bytes::<48>(x)?);
+        r.pin_token = Some(b_bytes(x)?);
     }
     if let Some(x) = v.geti(3) {
         r.retries = Some(u8::try_from(b_u(x)?).map_err(|_| "model: exceeds u8")?);
@@ -1061,7 +1174,7 @@ pub fn build_cm_resp(v: &Value) -> BR<ctap2::credential_management::Response> {
 pub fn build_lb_resp(v: &Value) -> BR<ctap2::large_blobs::Response> {
     let mut r = ctap2::large_blobs::Response::default();
     if let Some(x) = v.geti(1) {
-        r.config = Some(b_bytes::<{ ctap_types::sizes::LARGE_BLOB_MAX_FRAGMENT_LENGTH }>(x)?);
+        r.config = Some(b_bytes(x)?);
     }
     Ok(r)
 }
